@@ -190,7 +190,9 @@ func genLiterals(c *core.Check, emit func(Program) bool) {
 		// escapes that decode to a character with a meaning of its own in some quote style
 		`\u005C`, `\u{5C}`, `\x5C`, `\134`, `\u0024`, `\x24`, `\44`, `\u007B`, `\x7B`, `\173`, `\u0060`, `\x60`, `\/script>`, `\u003C`,
 		// every way a script element can end in HTML: the tag name in any case, followed by >, / or white space
-		`<\/SCRIPT>`, `<\/script `, `<\/Script/`, `<\/scripT\n`, `<\/script\t`}
+		`<\/SCRIPT>`, `<\/script `, `<\/Script/`, `<\/scripT\n`, `<\/script\t`,
+		// legacy octal escapes of characters above U+007F
+		`\377`, `\200`}
 	n := c.Pick(2, 3)
 	seq := core.Sequences{K: len(pieces), MaxLen: n}
 	for i := uint64(0); i < seq.Count(); i++ {
